@@ -90,7 +90,7 @@ theorem i64OkList_iff : ∀ xs : List V, i64OkList xs = true ↔ ∀ v ∈ xs, v
   | [] => by simp [i64OkList]
   | v :: r => by simp [i64OkList, i64OkList_iff r]
 
-theorem i64OkList_append (a b : List V) (ha : i64OkList a = true) (hb : i64OkList b = true) :
+theorem i64OkList_append_idx (a b : List V) (ha : i64OkList a = true) (hb : i64OkList b = true) :
     i64OkList (a ++ b) = true := by
   rw [i64OkList_iff] at *
   intro v hv
@@ -168,7 +168,7 @@ theorem getCollect_ok : ∀ (xs : List V) (key : String) (rest : Path) (c k : Bo
       · split
         · rename_i a
           split
-          · rw [V.i64Ok] at h1; exact i64OkList_append _ _ h1 h2
+          · rw [V.i64Ok] at h1; exact i64OkList_append_idx _ _ h1 h2
           · rw [i64OkList, h1, h2]; rfl
         · rw [i64OkList, h1, h2]; rfl
 end
@@ -183,7 +183,7 @@ theorem flatten_ok : ∀ array : List V, i64OkList array = true →
     have ih := flatten_ok r h.2
     rw [List.foldr_cons]
     split
-    · have := h.1; rw [V.i64Ok] at this; exact i64OkList_append _ _ this ih
+    · have := h.1; rw [V.i64Ok] at this; exact i64OkList_append_idx _ _ this ih
     · rw [i64OkList, h.1, ih]; rfl
 
 theorem All_ok (d : Doc) (path : Path) (c m : Bool) (h : DocOk d) : (All d path c m).1.i64Ok = true := by
